@@ -1,7 +1,8 @@
 (* Extraction of the literal models for the correspondence harness.
    ExtrOcamlBasic only (bool, option, unit, list, prod, sumbool, sumor); numbers stay positive/N. *)
-From HyV Require Import Base.Text Gen.LitTables Lit.Strings Lit.StringsSpec Lit.StringsRun Lit.Numeric Lit.NumericRun.
+From HyV Require Import Base.Text Gen.LitTables Lit.Strings Lit.StringsSpec Lit.StringsRun Lit.Numeric Lit.NumericRun Lit.Ctor Lit.CtorRun.
 Require Extraction.
 Require Import ExtrOcamlBasic.
 Extraction "../extract/lit_model.ml" m_string m_bracket m_uedec m_escdec m_bsr m_pyval
-  m_ident m_pyint m_pyfloat m_pycomplex m_isdigit.
+  m_ident m_pyint m_pyfloat m_pycomplex m_isdigit
+  m_read m_sym_ok m_kw_ok m_str_ok m_render_bracket.
